@@ -48,6 +48,9 @@ type c35Env struct {
 	join21At int64 // block of self's edit-stake (0 = none)
 }
 
+// selfOn21 == "left-mid-session": self was on 0021 at the session's first block and edit-staked away from it in a
+// later block of the session: session nodes that no longer serve the chain are dropped from the session.
+
 func flipHexByte(s string) string {
 	b, err := hex.DecodeString(s)
 	if err != nil || len(b) == 0 {
@@ -139,6 +142,8 @@ var c35Alterations = []c35Alteration{
 	}, enabled: func(w *relayWorld, e *c35Env) bool {
 		return e.join21At > e.sbh-w.bps && e.allowance >= 1 && e.sbh-w.bps >= 3
 	}},
+	{name: "servicer-left-chain-mid-session", pre: func(w *relayWorld, e *c35Env, p *rf.RelayParams) { p.Chain = "0021" },
+		enabled: func(w *relayWorld, e *c35Env) bool { return e.selfOn21 == "left-mid-session" }},
 	// ... and the other way round: joined at or before the session's first block, stakers == SessionNodeCount: in the session
 	{name: "none-servicer-joined-chain-before-session-start", valid: true, pre: func(w *relayWorld, e *c35Env, p *rf.RelayParams) { p.Chain = "0021" },
 		enabled: func(w *relayWorld, e *c35Env) bool { return e.selfOn21 == "since-session-start" }},
@@ -161,7 +166,7 @@ var c35Alterations = []c35Alteration{
 
 func TestC35(t *testing.T) {
 	floors := map[string]float64{"served": 0.9, "lean": 0.25, "non-lean": 0.25, "validator-set-changed-mid-session": 0.3, "joiner-on-0001-mid-session": 0.2,
-		"alt:servicer-joined-chain-mid-session": 0.2, "alt:none-servicer-joined-chain-before-session-start": 0.05}
+		"alt:servicer-joined-chain-mid-session": 0.2, "alt:servicer-left-chain-mid-session": 0.08, "alt:none-servicer-joined-chain-before-session-start": 0.05}
 	for _, a := range []string{"aat-signature-corrupted", "aat-unstaked-application", "aat-client-key-replaced", "client-signature-by-unnamed-key",
 		"request-hash-of-other-payload", "payload-data-changed-after-hashing", "servicer-key-of-in-session-peer", "chain-not-hosted-by-node",
 		"chain-not-staked-by-app", "chain-session-without-this-node", "session-height-beyond-tolerance", "meta-height-above-allowance", "entropy-negative"} {
@@ -170,10 +175,10 @@ func TestC35(t *testing.T) {
 	harness.Check(t, "C35",
 		"per case: a chain-simulator world (self + 1-3 in-session peers, SessionNodeCount = all 0001 stakers, blocks/session 2-4, ctx anywhere in the 2nd-4th session, "+
 			"lean / non-lean node mode, session sync allowance 0-1) whose validator set for a chain may change by real transactions while the chain runs (self edit-stakes onto chain 0021 "+
-			"before or after the latest session's first block, with or without the other 0021 node edit-staking away in the same block; a further node stakes / edit-stakes onto 0001 mid-session), "+
+			"before or after the latest session's first block, with or without the other 0021 node edit-staking away in the same block, and possibly edit-stakes away again mid-session; a further node stakes / edit-stakes onto 0001 mid-session), "+
 			"node session cache empty; the real keeper's HandleRelay with 24 relays from the relay factory, each valid or with exactly one alteration "+
 			"(application token signature / signer / application key / client key / version, client signature, request hash vs payload/meta, servicer key, chain not hosted / "+
-			"not staked by app / session without this node / servicer joined the chain after the session's first block, session height, meta height, entropy); oracle: altered => error, no backend call, "+
+			"not staked by app / session without this node / servicer joined the chain after the session's first block / servicer left the chain after it, session height, meta height, entropy); oracle: altered => error, no backend call, "+
 			"evidence of every header unchanged; unaltered (including: servicer on the chain since the session's first block) => served once, response signed by the node key over the response hash, "+
 			"backend reply returned, exactly that proof appended once. "+
 			"non-trivial = case in which at least one unaltered relay was served and at least 8 distinct alterations were rejected",
@@ -192,16 +197,20 @@ func TestC35(t *testing.T) {
 			// staked for the chain in the state of the session's first block (sbh): a change in a block <= sbh is part
 			// of the session, a change in a later block is not.
 			sbh := ((stop-1)/bps)*bps + 1
-			join21 := rapid.SampledFrom([]string{"none", "none", "before-session-start", "mid-session", "mid-session"}).Draw(rt, "selfJoins0021")
+			join21 := rapid.SampledFrom([]string{"none", "none", "before-session-start", "before-session-start-and-leaves-mid-session", "mid-session", "mid-session"}).Draw(rt, "selfJoins0021")
 			join01 := rapid.SampledFrom([]string{"none", "none", "new-stake", "edit-stake"}).Draw(rt, "joinerJoins0001")
-			if (join21 == "mid-session" || join01 != "none") && stop == sbh {
+			leaves21 := join21 == "before-session-start-and-leaves-mid-session"
+			if (join21 == "mid-session" || leaves21 || join01 != "none") && stop == sbh {
 				stop++ // (bps >= 2: still the same session)
 			}
-			var join21At, join01At int64
+			var join21At, leave21At, join01At int64
 			otherLeaves := false
 			switch join21 {
-			case "before-session-start":
+			case "before-session-start", "before-session-start-and-leaves-mid-session":
 				join21At = int64(rapid.IntRange(int(sbh-bps+1), int(sbh)).Draw(rt, "join21At"))
+				if leaves21 {
+					leave21At = int64(rapid.IntRange(int(sbh+1), int(stop)).Draw(rt, "leave21At"))
+				}
 			case "mid-session":
 				join21At = int64(rapid.IntRange(int(sbh+1), int(stop)).Draw(rt, "join21At"))
 			}
@@ -223,6 +232,9 @@ func TestC35(t *testing.T) {
 					if otherLeaves {
 						txs = append(txs, w.stakeTx("other", w.other, []string{"0003"}))
 					}
+				}
+				if h == leave21At {
+					txs = append(txs, w.stakeTx("self", w.self, []string{"0001", "0003", "0040"}))
 				}
 				if h == join01At {
 					chains := []string{"0001"}
@@ -246,6 +258,8 @@ func TestC35(t *testing.T) {
 				rt.Fatalf("world ended at height %d session %d, planned %d / %d", env.height, env.sbh, stop, sbh)
 			}
 			switch {
+			case leaves21:
+				env.selfOn21 = "left-mid-session"
 			case join21 == "mid-session":
 				env.selfOn21 = "joined-mid-session"
 			case join21 == "before-session-start" && otherLeaves:
@@ -259,14 +273,14 @@ func TestC35(t *testing.T) {
 			if join01 != "none" {
 				c.Label("joiner-on-0001-mid-session")
 			}
-			if join21 == "mid-session" || join01 != "none" {
+			if join21 == "mid-session" || leaves21 || join01 != "none" {
 				c.Label("validator-set-changed-mid-session")
 			}
 			// relays decided by the validator-set changes come first: the node's session cache is empty then (as after
 			// the once-per-session clearing, and after every edit-stake), so the session is formed by this very relay
 			var first []c35Alteration
 			for _, a := range c35Alterations {
-				if (strings.Contains(a.name, "servicer-joined-chain") || a.name == "chain-session-without-this-node") && a.enabled(w, env) {
+				if (strings.Contains(a.name, "servicer-joined-chain") || strings.Contains(a.name, "servicer-left-chain") || a.name == "chain-session-without-this-node") && a.enabled(w, env) {
 					first = append(first, a)
 				}
 			}
